@@ -1,4 +1,5 @@
 import Gmx.Model.Access
+import Gmx.Gen.StoreBinding
 import Gmx.Model.Handover
 /-!
 # C19 — privileged instructions reject callers without the required role
@@ -58,6 +59,44 @@ instruction; the recorded owner does -/
 theorem owner_call_semantics (ix : IxId) (h : OwnerBound ix = true) :
     ownerCallPasses ix false = false ∧ ownerCallPasses ix true = true := by
   simp [ownerCallPasses, h]
+
+/-! ## a role in store A is no role in store B -/
+open Gmx.Gen.StoreBinding in
+/-- state accounts of role-guarded instructions that the accounts struct does NOT tie to the `store`
+whose roles are checked — reviewed, each with its reason -/
+def foreignStateAllowed : List (IxId × String) := [
+  -- the callback authority is ONE global PDA of the store program (`seeds = [CALLBACK_AUTHORITY_SEED]`), not per-store state
+  (.store_execute_increase_or_swap_order_v2, "callback_authority"),
+  (.store_execute_decrease_order_v2, "callback_authority"),
+  -- passed on to the store CPI, whose own accounts struct binds it (`oracle: has_one = store`)
+  (.treasury_confirm_gt_buyback, "oracle"),
+  -- a fresh account created by this very instruction (`init`) and bound to the (store-bound) executor by the handler
+  (.timelock_create_instruction_buffer, "instruction_buffer")
+]
+
+open Gmx.Gen.StoreBinding in
+/-- is the state account tied, directly or through other accounts of the struct, to the store? -/
+def storeBound (b : Binding) : Bool :=
+  match b with
+  | .unbound | .noStore => false
+  | _ => true
+
+open Gmx.Gen.StoreBinding in
+/-- every state account of every role-guarded instruction is bound to the store whose roles the guard
+checks (`has_one = store`, store key in the seeds, referenced by the store, a constraint naming it,
+or transitively through an account that is) — except the reviewed allow-list. So the role holder of
+store A cannot apply the instruction to state of store B. -/
+theorem store_binding_complete :
+    ∀ ix : IxId, (info ix).attr.isSome = true →
+      ((stateAccounts ix).all fun a => storeBound a.binding || foreignStateAllowed.contains (ix, a.name)) = true := by
+  intro ix; cases ix <;> decide +kernel
+
+open Gmx.Gen.StoreBinding in
+/-- the allow-list is tight: every entry is a guarded instruction's state account that really is unbound -/
+theorem foreign_allowlist_tight :
+    (foreignStateAllowed.all fun p => (info p.1).attr.isSome &&
+      (stateAccounts p.1).any fun a => a.name == p.2 && !storeBound a.binding) = true := by
+  decide +kernel
 
 /-- the in-handler authority checks, exactly: the six owner-or-keeper `close_*` (ORDER_KEEPER, only
 for finished actions), `close_glv_shift` (keeper only: it also carries the attribute),
